@@ -106,6 +106,12 @@ def gen_manifest(top_dir):
     else:
         with open(os.path.join(top_dir, 'Manifest'), 'wb') as f:
             f.write(manifest_data)
+        # the directory may have had a compressed Manifest before
+        # it got its first ebuild
+        try:
+            os.unlink(os.path.join(top_dir, 'Manifest.gz'))
+        except FileNotFoundError:
+            pass
 
 
 if __name__ == '__main__':
